@@ -708,7 +708,12 @@ func constBool(v ssa.Value) (bool, bool) {
 // knownNil / knownNonNil: is value v known to be nil (resp. non-nil) when
 // control reaches instruction at?  same: value identity predicate.
 func nilKnowledge(at ssa.Instruction, same func(ssa.Value) bool) (isNil, nonNil bool) {
-	for _, ce := range dominatingConds(at.Block()) {
+	return nilKnowledgeOf(dominatingConds(at.Block()), same)
+}
+
+// nilKnowledgeOf: the same over an explicit list of condition edges.
+func nilKnowledgeOf(conds []condEdge, same func(ssa.Value) bool) (isNil, nonNil bool) {
+	for _, ce := range conds {
 		cm, ok := ce.asCmp()
 		if !ok {
 			continue
